@@ -134,7 +134,23 @@ fn precondition_ok(preset: Preset, docs: &[Doc]) -> bool {
 
 fn make_case(preset: Preset, id: usize, case: HistoryCase, witness_of: Option<String>, rep: &mut Report) -> Option<ProgCase> {
     let texts = case.texts();
-    let tree = match guarded(|| real::run_history(&texts, &[ReaderKind::Str], Cfg::default())) {
+    let run = || {
+        if case.render_between {
+            real::run_history_rendering_between(&texts, &[ReaderKind::Str], Cfg::default(), false)
+        } else {
+            real::run_history(&texts, &[ReaderKind::Str], Cfg::default())
+        }
+    };
+    if case.render_between && texts.len() > 1 {
+        rep.count("programs whose tree was rendered after every step before the next extension");
+    }
+    // the same documents through a reader that reports an io::Error at seeded offsets: the source that
+    // would be compiled must be the fault-free one, or there must be none (fault.rs)
+    if id % 8 == 0 && texts.iter().map(|t| t.len()).sum::<usize>() <= 6000 {
+        let mut fr = Rng::new(gen::fnv64(texts.concat().as_bytes()) ^ 0xFA17);
+        crate::fault::sweep(&texts, &mut fr, 8, rep, &case.origin);
+    }
+    let tree = match guarded(run) {
         Ok(Ok(t)) => t,
         Ok(Err((i, e))) => {
             rep.violation("run-failed", format!("document {} rejected: {}", i + 1, e), case.to_json());
@@ -200,7 +216,7 @@ pub fn gen_case(preset: Preset, seed: u64, index: u64) -> Option<HistoryCase> {
             raw_texts: None,
             across_threads: false,
             failed_parse_first: false,
-            render_between: false,
+            render_between: index % 3 == 1,
         });
     }
     None
@@ -287,6 +303,17 @@ pub fn threshold_programs() -> Vec<HistoryCase> {
         b.items.push(Item::Elem(l));
         out.push(HistoryCase::plain(&format!("threshold-program:wide-{}-late-repeat", m), vec![Doc::plain(b.clone())]));
         out.push(HistoryCase::plain(&format!("threshold-program:wide-{}-late-repeat-later", m), vec![Doc::plain(a), Doc::plain(b)]));
+    }
+    // every width 3..=40: the LAST distinct child occurs exactly twice (adjacent), nothing else repeats
+    for m in 3usize..=40 {
+        let mut a = Elem::new("rec");
+        for i in 0..m {
+            let l = text_leaf(&format!("f{}", i), &mut val);
+            a.items.push(Item::Elem(l));
+        }
+        let l = text_leaf(&format!("f{}", m - 1), &mut val);
+        a.items.push(Item::Elem(l));
+        out.push(HistoryCase::plain(&format!("threshold-program:width-{}-last-twice", m), vec![Doc::plain(a)]));
     }
     // sparse records: a wide record followed by one that lacks K of its columns — K children (and K
     // attributes) become optional in ONE step, inside one document and across an extension
@@ -756,7 +783,7 @@ pub fn run(preset: Preset, thorough: bool, seed: u64, findings: &[Finding], only
                 max_children: 3,
                 n_elem_names: (2, 4),
                 n_attr_names: (1, 2),
-                n_docs: (1, 2),
+                n_docs: (1, 3),
                 p_text: 3,
                 p_cdata: 0,
                 p_misc: 0,
@@ -774,9 +801,12 @@ pub fn run(preset: Preset, thorough: bool, seed: u64, findings: &[Finding], only
                 continue;
             }
             rep.count("histories_screened");
-            let hc = HistoryCase::plain(&format!("prog-screen:{}:{}", seed, k), docs);
+            let mut hc = HistoryCase::plain(&format!("prog-screen:{}:{}", seed, k), docs);
+            // every other screened history renders the tree between its steps (make_case replays it so)
+            hc.render_between = k % 2 == 1;
             let texts = hc.texts();
-            let tree = match guarded(|| real::run_history(&texts, &[ReaderKind::Str], Cfg::default())) {
+            let rb = hc.render_between;
+            let tree = match guarded(|| if rb { real::run_history_rendering_between(&texts, &[ReaderKind::Str], Cfg::default(), false) } else { real::run_history(&texts, &[ReaderKind::Str], Cfg::default()) }) {
                 Ok(Ok(t)) => t,
                 _ => continue,
             };
